@@ -56,6 +56,19 @@ class SuperProxy:
         self.obj, self.after = obj, after
 
 
+def _is_generator(fn):
+    """does the function body (not nested defs / lambdas) contain yield?"""
+    stack = list(fn.body) if isinstance(fn.body, list) else []
+    while stack:
+        n = stack.pop()
+        if isinstance(n, (ast.Yield, ast.YieldFrom)):
+            return True
+        if isinstance(n, (ast.FunctionDef, ast.AsyncFunctionDef, ast.Lambda, ast.ClassDef)):
+            continue
+        stack.extend(ast.iter_child_nodes(n))
+    return False
+
+
 class Env:
     def __init__(self, module, parent=None, locals_=None):
         self.module, self.parent = module, parent
@@ -666,6 +679,19 @@ class Executor:
             cands = repo.find_functions(mod, qual)
         except FileNotFoundError:
             cands = []
+        if not cands and f.__name__ == '<lambda>':
+            # a module-level lambda (e.g. an entry of a dispatch table): located by its line / column in the current source
+            try:
+                tree = repo.module_ast(mod)
+                lams = [n for n in ast.walk(tree) if isinstance(n, ast.Lambda) and n.lineno == f.__code__.co_firstlineno]
+                want = f.__code__.co_varnames[:f.__code__.co_argcount]
+                lams = [n for n in lams if tuple(a.arg for a in n.args.posonlyargs + n.args.args) == tuple(want)]
+                if len(lams) == 1:
+                    m = sys.modules.get(mod) or repo.import_module(mod)
+                    return Closure(lams[0], Env(m), m, qual)
+            except Exception:
+                pass
+            return None
         if not cands:
             return None
         node = None
@@ -728,7 +754,8 @@ class Executor:
             raise Unsupported(f'inline depth exceeded at {key}')
         depth = sum(1 for k, _ in self.stack if k == key)
         if depth and not (getattr(clo, 'allow_recursion', False) or (depth < 3 and (key[1].endswith(('__deepcopy__', '__copy__', '__init__', 'copy')) or 'copy' in key[1].split('.')[-1].lower()))
-                          or any(sub in key[1] and depth < d for sub, d in self.recursion_ok.items())):
+                          or any(sub in key[1] and depth < d for sub, d in self.recursion_ok.items())
+                          or (depth < 3 and any(k_[1].endswith(('__deepcopy__', '__copy__')) for k_, _ in self.stack))):
             raise Unsupported(f'recursion without contract: {key}')
         fn = clo.node
         env = Env(clo.module, parent=clo.env if clo.env.vars or clo.env.parent else None)
@@ -742,12 +769,20 @@ class Executor:
         self.bind_params(fn.args, args, kwargs, env, clo)
         env.defcls = clo.defcls
         self.stack.append((key, fn))
+        is_gen = _is_generator(fn)
+        if is_gen:
+            # generator function: run eagerly and hand out the list of yielded values (assumption register: generator bodies are free of effects
+            # whose interleaving with the consumer matters - the library's generators only compute strings / tokens)
+            self.yields = getattr(self, 'yields', [])
+            self.yields.append([])
         try:
             self.exec_block(fn.body, env)
-            return None
+            return self.yields[-1] if is_gen else None
         except ReturnSig as r:
-            return r.v
+            return self.yields[-1] if is_gen else r.v
         finally:
+            if is_gen:
+                done = self.yields.pop()
             self.stack.pop()
 
     def bind_params(self, a, args, kwargs, env, clo):
@@ -1090,6 +1125,21 @@ class Executor:
             raise Unsupported(f'expression {type(e).__name__} at {self.where(e)}')
         return m(e, env)
 
+    def e_Yield(self, e, env):
+        if not getattr(self, 'yields', None):
+            raise Unsupported('yield outside a generator run')
+        self.yields[-1].append(self.eval(e.value, env) if e.value is not None else None)
+        return None
+
+    def e_YieldFrom(self, e, env):
+        if not getattr(self, 'yields', None):
+            raise Unsupported('yield from outside a generator run')
+        v = self.eval(e.value, env)
+        if isinstance(v, SymSeq):
+            raise Unsupported('yield from a symbolic sequence')
+        self.yields[-1].extend(self.iterate_concrete(v, e))
+        return None
+
     def e_Constant(self, e, env):
         return e.value
 
@@ -1121,12 +1171,14 @@ class Executor:
         if any(isinstance(x, ast.Starred) for x in e.elts):
             # [a, *xs, b] with a symbolic sequence: the same value as [a] + xs + [b]
             vals = [(isinstance(x, ast.Starred), self.eval(x.value if isinstance(x, ast.Starred) else x, env)) for x in e.elts]
-            if any(st and isinstance(v, SymSeq) for st, v in vals):
+            if any(st and (isinstance(v, SymSeq) or (isinstance(v, SymObj) and self.method_stubs.get('list') is not None)) for st, v in vals):
                 from . import models
                 acc = []
                 for st, v in vals:
                     piece = v if st else [v]
-                    if st and not isinstance(v, (SymSeq, list, tuple)):
+                    if st and isinstance(v, SymObj) and self.method_stubs.get('list') is not None:
+                        piece = self.method_stubs['list'](self, v, [], {})          # *obj drains the iterable exactly like list(obj)
+                    elif st and not isinstance(v, (SymSeq, list, tuple)):
                         piece = list(self.iterate_concrete(v, e))
                     if isinstance(piece, tuple):
                         piece = list(piece)
